@@ -52,6 +52,7 @@ def asan_signature(stderr_text):
 
 def _run_one(exe, args, script_texts, rundir, tag, env, timeout):
     """Feed scripts to one harness process chain; restart behind every crash. Returns (fails, records, nscripts, nsteps)."""
+    tag = re.sub(r"[^A-Za-z0-9_.-]", "_", tag)
     path = os.path.join(rundir, "scripts-%s.txt" % tag)
     with open(path, "w") as f:
         for t in script_texts:
